@@ -362,6 +362,28 @@ pub fn fen_events(t: &Tables, seeds: &[String], dir: &str, nshards: usize, seed:
         n += 1;
         n_fuzz += 1;
     }
+    // every string of at most two characters over a small alphabet of separators, terminators and field fragments (what is
+    // left of an input after trimming can be EMPTY), and well-formed records wrapped in line terminators
+    let alpha = ['\n', '\r', ' ', '\t', '/', '-', 'w', '8', 'K', 'a', '1', '\u{e9}'];
+    let mut shorts: Vec<String> = alpha.iter().map(|c| c.to_string()).collect();
+    for a in alpha {
+        for b in alpha {
+            shorts.push(format!("{}{}", a, b));
+        }
+    }
+    for w in ["\n", "\r\n", "\r", "\n\n", " \n"] {
+        shorts.push(format!("{}{}", DEFAULT_FEN_STRING, w));
+        shorts.push(format!("{}{}", w, DEFAULT_FEN_STRING));
+        shorts.push(format!("8/8/8/8/8/8/8/8 w - - 0 1{}", w));
+    }
+    for (i, s) in shorts.iter().enumerate() {
+        out.emit(n % nshards, &fen_load_event(t, s, "fuzz", None));
+        if i % 7 == 0 || s.len() <= 1 {
+            cli.push(json!({"kind": "fuzz", "input": s}));
+        }
+        n += 1;
+        n_fuzz += 1;
+    }
     out.finish();
     std::fs::write(format!("{}/cli_inputs.json", dir), serde_json::to_string(&cli).unwrap()).unwrap();
     json!({"spec": n_spec, "fuzz": n_fuzz, "cli_inputs": cli.len()})
